@@ -11,8 +11,10 @@ import (
 	"io"
 	"os"
 	"path/filepath"
+	"runtime/debug"
 	"strings"
 	"time"
+	"verifsim/seams"
 
 	"github.com/google/gce-tcb-verifier/cmd"
 	"github.com/google/gce-tcb-verifier/cmd/output"
@@ -114,6 +116,31 @@ func Endorse(r *core.Run, a *worlda.Authority, vcs endorse.VersionControl, q Req
 	// reader (crypto/rand by default): pin it to the run, or the signed bytes differ per execution
 	uuid.SetRand(core.NewDetReader(r.Seed ^ 0x1d1d ^ uint64(r.NEvents())<<16))
 	defer uuid.SetRand(nil)
+	// An endorse run that panics has neither succeeded nor reported an error: every property of this
+	// world is stated over runs that end. (Simulated process crashes travel as seams.Crash and are
+	// not touched; C15 reports a panicking run under its own class.)
+	defer func() {
+		if r.Property == "C15" {
+			return
+		}
+		if p := recover(); p != nil {
+			if _, isCrash := p.(seams.Crash); isCrash || fmt.Sprintf("%T", p) == "core.stopRun" {
+				panic(p)
+			}
+			frames := strings.Split(string(debug.Stack()), "\n")
+			at := ""
+			for i, l := range frames {
+				if strings.HasPrefix(l, "github.com/google/gce-tcb-verifier/") && i+1 < len(frames) {
+					at = l[strings.LastIndex(l, "/")+1:]
+					if j := strings.IndexByte(at, '('); j > 0 {
+						at = at[:j]
+					}
+					break
+				}
+			}
+			r.Fail("run-crashed", at, "%s: the endorse run panicked in %s: %v", q, at, p)
+		}
+	}()
 	run := func() {
 		if q.ViaCLI {
 			err = endorseCLI(a, vcs, q, scratch)
